@@ -15,6 +15,7 @@
 import SnowProofs.Lemmas.FlakeAdm
 import SnowProofs.Props.C05
 import SnowProofs.Props.C01
+import SnowProofs.Lemmas.FlakeGeom
 
 namespace Snow.C06
 open Snow Num Snow.Flake Snow.FlakeLemmas
@@ -644,6 +645,15 @@ theorem shelf_coeff_nonneg (nz n : Nat) (s0 : ℝ) (sRel : Option ℝ) (normals 
         · rename_i h; exact not_lt.mp h
       · simp only [List.mem_replicate] at hx; rw [hx.2]; exact hs0
   · simp only [List.mem_replicate, zero_real] at hx; rw [hx.2]
+
+/-- **non-negative coupling to the surroundings for every declared shape**: no vial has more
+neighbours than the arrangement's maximum, so `VIAL_EXT ≥ 0` (premise `CoeffNonneg.ext` for
+`k_ext·A ≥ 0`). -/
+theorem ext_nonneg_shape (arr : Snow.Topology.Arr) (nx ny nz i : Nat)
+    (hi : i < Snow.Topology.nTot nx ny nz) : 0 ≤ (extOf arr nx ny nz).getD i 0 := by
+  rw [extOf_getD arr nx ny nz i hi, Snow.C09.deg_eq_geomDeg arr hi]
+  have := Snow.C09.geomDeg_le_maxNbr arr hi
+  omega
 
 /-! ### non-vacuity -/
 
